@@ -1,9 +1,122 @@
-/- Line-protocol driver stub: answers every request line with "unimplemented". -/
-partial def loop (h : IO.FS.Stream) (out : IO.FS.Stream) : IO Unit := do
+/-
+  Line-protocol driver of the tuner model (C20).  One request line → exactly one answer line.
+
+    feistel x seed bits          → y
+    shuf x n seed                → y | none            (none = iteration budget exhausted)
+    img n seed                   → h <fnv64 of the image shuffleIndex(0..n-1)>
+    imgl n seed                  → y0 y1 … y(n-1)
+    batches n                    → s-e s-e …           (tuning.Batches, real constants)
+    chunks s e                   → s-e s-e …           (tuning.Chunks of batch [s,e))
+    bc B C n                     → batches/chunks for arbitrary constants: s-e:s-e,s-e;…
+    file <path>                  → ok <lines> <fnv64 of manifest> | err   (loads file, NewChunker)
+    manifest                     → s:e s:e …
+    open epoch start end buflen full|hash
+                                 → invalid | panic <k> | ok <lines> <trace>   (Open + Read to EOF)
+    epoch epoch buflen           → fail | ok <lines> <fnv64 of all delivered lines in order>
+-/
+import ChessVerif.Model.Tuner
+open ChessVerif ChessVerif.Tuner
+
+def fnvInit : UInt64 := 0xcbf29ce484222325
+@[inline] def fnvByte (h : UInt64) (b : UInt8) : UInt64 := (h ^^^ b.toUInt64) * 0x100000001b3
+def fnvNat (h : UInt64) (n : Nat) : UInt64 := Id.run do
+  let mut h := h
+  let v := n.toUInt64
+  for i in [0:8] do
+    h := fnvByte h ((v >>> (8 * i).toUInt64) &&& 0xff).toUInt8
+  return h
+def fnvLine (h : UInt64) (l : List UInt8) : UInt64 := fnvByte (l.foldl fnvByte h) 10
+
+def hex2 (b : UInt8) : String :=
+  let d := fun (n : Nat) => Char.ofNat (if n < 10 then 48 + n else 87 + n)
+  String.ofList [d (b.toNat / 16), d (b.toNat % 16)]
+def hexLine (l : List UInt8) : String := String.join (l.map hex2)
+
+def rangesStr (rs : List Range) : String := " ".intercalate (rs.map fun r => s!"{r.start}-{r.stop}")
+
+structure St where
+  file : File := ⟨0, fun _ => 0⟩
+  manifest : Option (Array LineAddr) := none
+
+def doOpen (st : St) (epoch start stop : Int) (bufLen : Nat) (full : Bool) : String :=
+  match st.manifest with
+  | none => "nofile"
+  | some m =>
+    match openChunk m epoch start stop with
+    | none => "invalid"
+    | some c => Id.run do
+      let mut c := c
+      let mut h := fnvInit
+      let mut out : Array String := #[]
+      let mut k := 0
+      let mut res := ""
+      for _ in [0:c.chunkLines.size + 2] do
+        if res != "" then break
+        let (r, c') := c.read st.file bufLen
+        c := c'
+        match r with
+        | .eof => res := "ok"
+        | .panic => res := "panic"
+        | .line l =>
+          k := k + 1
+          h := fnvLine (fnvNat (fnvNat h c.mapStart) c.mapEnd) l
+          if full then out := out.push s!"{c.mapStart}:{c.mapEnd}:{hexLine l}"
+      if res == "panic" then return s!"panic {k}"
+      if full then return s!"ok {k} " ++ ",".intercalate out.toList
+      return s!"ok {k} {h.toNat}"
+
+def answer (st : St) (w : List String) : IO (St × String) := do
+  match w with
+  | ["feistel", x, seed, bits] =>
+    return (st, toString (feistel x.toNat! seed.toNat! bits.toNat!))
+  | ["shuf", x, n, seed] =>
+    let n := n.toNat!
+    return (st, match shuffleIndexFuel (shuffleFuel n) x.toNat! n seed.toNat! with
+      | some y => toString y | none => "none")
+  | ["img", n, seed] =>
+    let n := n.toNat!; let seed := seed.toNat!
+    let h := (List.range n).foldl (fun h x => fnvNat h (shuffleIndex x n seed)) fnvInit
+    return (st, s!"h {h.toNat}")
+  | ["imgl", n, seed] =>
+    let n := n.toNat!; let seed := seed.toNat!
+    return (st, " ".intercalate ((List.range n).map fun x => toString (shuffleIndex x n seed)))
+  | ["batches", n] => return (st, rangesStr (batches n.toNat!))
+  | ["chunks", s, e] => return (st, rangesStr (chunks ⟨s.toNat!, e.toNat!⟩))
+  | ["bc", b, c, n] =>
+    let b := b.toNat!; let c := c.toNat!
+    let bs := batchesWith b n.toNat!
+    return (st, ";".intercalate (bs.map fun r =>
+      s!"{r.start}-{r.stop}:" ++ ",".intercalate ((chunksWith b c r).map fun q => s!"{q.start}-{q.stop}")))
+  | ["file", path] =>
+    let bytes ← IO.FS.readBinFile path
+    let f := File.ofByteArray bytes
+    match newChunker f with
+    | none => return ({ file := f, manifest := none }, "err")
+    | some m =>
+      let h := m.foldl (fun h a => fnvNat (fnvNat h a.start) a.stop) fnvInit
+      return ({ file := f, manifest := some m }, s!"ok {m.size} {h.toNat}")
+  | ["manifest"] =>
+    match st.manifest with
+    | none => return (st, "nofile")
+    | some m => return (st, " ".intercalate (m.toList.map fun a => s!"{a.start}:{a.stop}"))
+  | ["open", epoch, start, stop, bufLen, mode] =>
+    return (st, doOpen st epoch.toInt! start.toInt! stop.toInt! bufLen.toNat! (mode == "full"))
+  | ["epoch", epoch, bufLen] =>
+    match st.manifest with
+    | none => return (st, "nofile")
+    | some m =>
+      match epochLines st.file bufLen.toNat! m epoch.toInt! with
+      | none => return (st, "fail")
+      | some ls => return (st, s!"ok {ls.length} {(ls.foldl fnvLine fnvInit).toNat}")
+  | _ => return (st, "bad-request")
+
+partial def loop (h : IO.FS.Stream) (out : IO.FS.Stream) (st : St) : IO Unit := do
   let line ← h.getLine
   if line.isEmpty then return ()
-  out.putStrLn "unimplemented"
+  let w := (line.trimAscii.toString.splitOn " ").filter (· ≠ "")
+  let (st, a) ← try answer st w catch e => pure (st, s!"ioerr {e}")
+  out.putStrLn a
   out.flush
-  loop h out
+  loop h out st
 
-def main : IO Unit := do loop (← IO.getStdin) (← IO.getStdout)
+def main : IO Unit := do loop (← IO.getStdin) (← IO.getStdout) {}
